@@ -67,7 +67,7 @@ def indexOfEq : Bytes → Option Nat
   | b :: rest => if b == 61 then some 0 else (indexOfEq rest).map (· + 1)
 
 /-- `parse_attr(src, lineno, cp, e)` (both passes at once): the state parsed at `cp` and the new `cp`,
-or `none` for an invalid attribute name -/
+or `none` for an invalid attribute name (first pass: name validity; second pass: the state) -/
 def parseAttrC (cp : Bytes) : Option (Asg × Bytes) :=
   let ep := cspnBlank cp
   let equals : Option Nat := match indexOfEq cp with
@@ -75,15 +75,11 @@ def parseAttrC (cp : Bytes) : Option (Asg × Bytes) :=
     | none => none
   let len := match equals with | some e => e | none => ep
   let next := skipBlank (cp.drop ep)
-  match cp with
-  | 45 :: r => if attrNameValid (r.take (len - 1)) then some (⟨r.take (len - 1), St.unset⟩, next) else none
-  | 33 :: r => if attrNameValid (r.take (len - 1)) then some (⟨r.take (len - 1), St.unspecified⟩, next) else none
-  | _ =>
-    if attrNameValid (cp.take len) then
-      match equals with
-      | none => some (⟨cp.take len, St.set⟩, next)
-      | some e => some (⟨cp.take len, St.value ((cp.take ep).drop (e + 1))⟩, next)
-    else none
+  let pair : Bytes × St := match cp with
+    | 45 :: r => (r.take (len - 1), St.unset)
+    | 33 :: r => (r.take (len - 1), St.unspecified)
+    | _ => (cp.take len, match equals with | none => St.set | some e => St.value ((cp.take ep).drop (e + 1)))
+  if attrNameValid pair.1 then some (⟨pair.1, pair.2⟩, next) else none
 
 /-- `for (cp = states; *cp; ) cp = parse_attr(…)` -/
 def parseStatesC : Nat → Bytes → Option (List Asg)
@@ -98,15 +94,15 @@ def parseStatesC : Nat → Bytes → Option (List Asg)
 def parseAttrLineC (macroOk : Bool) (line0 : Bytes) (no : Nat) : Option Line :=
   let line := cstr line0
   let cp := skipBlank line
-  match cp with
-  | [] => none
-  | 35 :: _ => none
-  | c :: _ =>
-    if line.length ≥ maxLineLen then none else
-    let unq : Option (Bytes × Bytes) := if c == 34 then unquoteC cp else none
-    let (name, states) : Bytes × Bytes := match unq with
+  if cp.isEmpty then none
+  else if cp.head? == some 35 then none
+  else if line.length ≥ maxLineLen then none
+  else
+    let unq : Option (Bytes × Bytes) := if cp.head? == some 34 then unquoteC cp else none
+    let split : Bytes × Bytes := match unq with
       | some (u, rest) => (u, rest)
       | none => (cp.take (cspnBlank cp), cp.drop (cspnBlank cp))
+    let name := split.1
     let kind : Option Kind :=
       if macroPrefix.length < name.length && macroPrefix.isPrefixOf name then
         if !macroOk then none else
@@ -119,7 +115,7 @@ def parseAttrLineC (macroOk : Bool) (line0 : Bytes) (no : Nat) : Option Line :=
         match parsePat name with
         | none => none
         | some p => if p.negative then none else some (Kind.pattern p)
-    let states := skipBlank states
+    let states := skipBlank split.2
     match kind, parseStatesC (states.length + 1) states with
     | some k, some as => some ⟨k, as, no⟩
     | _, _ => none
